@@ -778,3 +778,64 @@ def bitset_primitives(P, R, rule):
         n += 1
         R.ob(rule, ok and same_ix, f, '%s combines its operands as %s (computes %s)' % (name, 'in1 & ~in2' if neg2 else 'in1 %s in2' % op, sx(x)), key='bitset:%s' % name)
     R.floor(rule, 3, 'word-wise set operations')
+    bitset_domains(P, R, rule)
+
+
+def bitset_domains(P, R, rule):
+    """A set operation combines sets over one enumeration: every operand written `X.bits` belongs to the same set
+    type as the destination (the word count is taken from the destination alone, so a foreign set is combined bit
+    for bit under the wrong names)."""
+    n = 0
+    for f in P.fns.values():
+        for s in f.calls():
+            if s.ev.get('callee') not in ('bitset_or', 'bitset_and', 'bitset_andnot', 'bitset_h_andnot', 'memcpy'):
+                continue
+            recs = []
+            for a in s.ev['args'][:3]:
+                if isinstance(a, dict) and a.get('k') == 'mem' and a.get('field') == 'bits' and a.get('rec'):
+                    recs.append(a['rec'])
+            if len(recs) < 2:
+                continue
+            n += 1
+            R.ob(rule, len(set(recs)) == 1, s, 'the operands of %s are sets of one type (%s)' % (s.ev.get('macro') or s.ev['callee'], ', '.join(sorted(set(recs)))),
+                 key='bitset-domain:%s' % f.name)
+    R.floor(rule, 3, 'set operations over typed bit sets')
+
+
+def loops_of(fn):
+    """(head block, body blocks) of every loop whose head has a conditional terminator: body = blocks on a cycle through
+    the head entered by its true edge."""
+    out = []
+    for b in fn.reachable_blocks():
+        c = fn.term_cond(b)
+        if c is None:
+            continue
+        for e in fn.out[b]:
+            if e.label != 'true':
+                continue
+            body = {x for x in fn.reach([e.dst], cut_blocks={b}) if b in fn.reach([x])}
+            if body:
+                out.append((b, body))
+    return out
+
+
+def full_traversal(P, R, rule, fn, is_iter_cond, what):
+    """A loop that is meant to visit every element of a container is left only when the container is exhausted: no
+    edge leaves its body except through the loop head (an early `break` / `return` on a skippable element silently
+    drops every element behind it).  is_iter_cond(cond) selects the loop by its head condition."""
+    n = 0
+    for head, body in loops_of(fn):
+        c = fn.term_cond(head)
+        if not is_iter_cond(c):
+            continue
+        # outermost only: skip loops nested in another selected loop
+        exits = []
+        for x in body:
+            for e in fn.out[x]:
+                if e.dst not in body and e.dst != head:
+                    exits.append(e)
+        n += 1
+        loc = (fn.blocks[head].get('term') or {}).get('loc')
+        R.ob(rule, not exits, P.relloc(loc) if loc else fn, '%s: the loop is left only when every element has been visited%s' % (what, (' (early exit: %s)' % exits[0].describe()) if exits else ''),
+             key='full-traversal:%s' % fn.name)
+    return n
